@@ -23,8 +23,15 @@ def run(job):
     p = subprocess.run([sys.executable, str(V / "tools" / "seeded_test.py"), str(d)] + ids, capture_output=True, text=True)
     lines = [l for l in p.stdout.splitlines() if re.match(r"(CAUGHT|MISSED|ERROR|PATCH)", l)]
     return d.name, lines
+import fcntl
+new = {}
 with ThreadPoolExecutor(4) as ex:
     for name, lines in ex.map(run, jobs):
-        res[name] = lines
+        new[name] = lines
         print(name, "::", "; ".join(l[:140] for l in lines))
-res_path.write_text(json.dumps(res, indent=1, sort_keys=True))
+        # merge into the shared results file under a lock (several seeded_all runs may be active)
+        with open(str(res_path) + ".lock", "w") as lk:
+            fcntl.flock(lk, fcntl.LOCK_EX)
+            cur = json.loads(res_path.read_text()) if res_path.exists() else {}
+            cur[name] = lines
+            res_path.write_text(json.dumps(cur, indent=1, sort_keys=True))
